@@ -132,12 +132,17 @@ def check_clone_faithful(ctx, rep, type_names):
                 for c in lf.calls:
                     if c['callee'].endswith('Clone::clone') and c['args'] and c['args'][0][0] == 'ref':
                         clone_rets[repr(c['ret'])] = (c['args'][0][1], tuple(c['args'][0][2]))
-                for i, (x, y) in enumerate(zip(lf.ret[3], src[3])):
+                def same(x, y, pth):
                     if x == y:
-                        continue
-                    if clone_rets.get(repr(x)) == (('H', 'self'), (('f', i),)):
-                        continue       # `self.field.clone()` of a generic field
-                    ok, bad_field = False, i
+                        return True
+                    if clone_rets.get(repr(x)) == (('H', 'self'), pth):
+                        return True    # `self.<field path>.clone()` of a generic field
+                    if x is not None and y is not None and x[0] == 'adt' and y[0] == 'adt' and x[1] == y[1] and x[2] == y[2] and len(x[3]) == len(y[3]):
+                        return all(same(a_, b_, pth + (('f', j),)) for j, (a_, b_) in enumerate(zip(x[3], y[3])))
+                    return False
+                for i, (x, y) in enumerate(zip(lf.ret[3], src[3])):
+                    if not same(x, y, (('f', i),)):
+                        ok, bad_field = False, i
             rep.ob('hand-written Clone impls copy the state', 1, 1 if ok else 0)
             if not ok:
                 rep.finding('%s clone-of-%s is-not-a-copy' % (rep.prop, st['path'].split('::')[-1]),
